@@ -694,7 +694,7 @@ func TestC17Managers(t *testing.T) {
 	rep.Extra["rm_schedule_retries"] = sh.flips.Load()
 	rep.Extra["rm_executions_with_satisfiable_request_and_armed_receiver_but_no_grant"] = sh.starve.Load()
 	if sh.vs.empty() && (sh.cancelVanish.Load() == 0 || sh.notifies.Load() == 0 || sh.direct.Load() == 0) {
-		core.HarnessError("vacuous resourcemanager run")
+		rep.Vacuous("vacuous resourcemanager run")
 	}
 	rmRealAPIConfirmation(t, rep)
 	sh.vs.flush(rep)
